@@ -1559,12 +1559,77 @@ def _integer_gate(F, s, e):
 
 
 def _take10(F, s, e):
+    """`assert!(candidates.len() <= 10)` after the loop: every value the collection can have when the assert runs is empty, or
+    was built from at most ten elements - `iter.take(k).collect()` or `From::from(v)` of a vector that was cut with
+    `v.truncate(k)` (k <= 10) and not grown since.  Decided on the definitions of the asserted local in the MIR."""
     fn = s.fn
-    h = F.hir_of(fn)
-    import hirpp
-    txt = "\n".join(hirpp.tree(h["body"]))
-    ok = "candidates = next.into_iter().take(10).collect()" in txt
-    return ok, ("candidates is rebuilt with take(10) on every iteration" if ok else "candidates is no longer truncated with take(10)")
+    lens = [(bb, t) for bb, t in fn.calls() if "callee" in t and t["callee"]["path"].endswith("BinaryHeap::<T, A>::len") and fn.dominates(bb, s.bb)]
+    if not lens:
+        return False, "the asserted length is not that of a BinaryHeap"
+    pl = place_of(fn.blocks[lens[-1][0]]["term"]["args"][0])
+    ap = fn.apath(fn.blocks[lens[-1][0]]["term"]["args"][0])
+    # the local that holds the heap (through the `&candidates` temporary)
+    loc = None
+    for d in fn.defs().get(pl["l"], []) if pl else []:
+        if d[0] == "stmt" and d[3].get("k") == "ref":
+            loc = d[3]["place"]["l"]
+    if loc is None:
+        return False, "cannot find the collection whose length is asserted"
+    bad = []
+    n = 0
+    # definitions of the collection, through `candidates = <temporary>` moves
+    work, alld, seen_l = [loc], [], set()
+    while work:
+        l_ = work.pop()
+        if l_ in seen_l:
+            continue
+        seen_l.add(l_)
+        for d in fn.defs().get(l_, []):
+            mv = place_of(d[3]["a"]) if d[0] == "stmt" and d[3].get("k") == "use" else None
+            if mv is not None and not mv["p"]:
+                work.append(mv["l"])
+            else:
+                alld.append(d)
+    for d in alld:
+        n += 1
+        if d[0] != "call":
+            bad.append("assigned by %s" % d[0])
+            continue
+        t = d[2]
+        p = t["callee"]["path"] if "callee" in t else "?"
+        if p.endswith(("BinaryHeap::<T>::new", "BinaryHeap::<T, A>::new")):
+            continue
+        a0 = ap_str(fn.apath(t["args"][0])) if t["args"] else ""
+        m = re.search(r"::take\(.*, (\d+)\)", a0)
+        if ("collect" in p or "from_iter" in p) and m and int(m.group(1)) <= 10:
+            continue
+        if p.endswith(">::from") and t["args"]:
+            v = place_of(t["args"][0])
+            cuts = []
+            for bb2, t2 in fn.calls():
+                if "callee" in t2 and t2["callee"]["path"].endswith("Vec::<T, A>::truncate") and fn.dominates(bb2, d[1]):
+                    r = fn.apath(t2["args"][0])
+                    k = const_int(t2["args"][1])
+                    if v and r[0] == ("local", v["l"]) or (v and fn.apath(t["args"][0])[0] == r[0]):
+                        if k is not None and k <= 10:
+                            cuts.append(bb2)
+            grown = False
+            for c in cuts:
+                between = fn.reachable(c)
+                for bb3, t3 in fn.calls():
+                    if bb3 in between and d[1] in fn.reachable(bb3) and bb3 not in (c, d[1]) and "callee" in t3 and \
+                            t3["callee"]["path"].split("::")[-1] in ("push", "extend", "append", "insert", "extend_from_slice", "resize") and t3["args"] and \
+                            fn.apath(t3["args"][0])[0] == fn.apath(fn.blocks[c]["term"]["args"][0])[0]:
+                        grown = True
+            if cuts and not grown:
+                continue
+            # vec![one element]
+            if "box_assume_init_into_vec" in a0 or "into_vec" in a0:
+                continue
+        bad.append("%s(%s)" % (p.split("::")[-1], a0[:80]))
+    ok = n > 0 and not bad
+    return ok, ("every value of the collection is empty or built from at most ten elements (take / truncate)" if ok else
+                "candidates is no longer truncated to ten on every path: %s" % bad)
 
 
 def _arm_order_equals_first(F, s, e):
